@@ -23,13 +23,16 @@ def p10b_accept_backoff(ctx):
     err_dst = ok_dst = None
     for bb in sorted(b.live_blocks()):
         info = b.switch_info(bb)
-        if info and info["kind"] == "variant" and set(sum(info["arms"].values(), [])) >= {"Ok", "Err"}:
-            fut = awaited(info["on"])
+        labs_ = set(sum(info["arms"].values(), [])) if info and info["kind"] == "variant" else set()
+        if labs_ >= {"Ok", "Err"} or labs_ >= {"Continue", "Break"}:
+            # `match listener.accept().await { Ok(..) => .., Err(..) => .. }`, or `listener.accept().await?` in a helper
+            on_ = peel_var(info["on"])
+            fut = awaited(on_[1]) if on_[0] == "try" else awaited(info["on"])
             if fut is not None and fut[0] == "call" and fut[3] == (b.path, abb):
                 for e in b.succ[bb]:
-                    if info["arms"].get(e.dst) == ["Err"]:
+                    if info["arms"].get(e.dst) in (["Err"], ["Break"]):
                         err_dst = e.dst
-                    elif info["arms"].get(e.dst) == ["Ok"]:
+                    elif info["arms"].get(e.dst) in (["Ok"], ["Continue"]):
                         ok_dst = e.dst
     if err_dst is None or ok_dst is None:
         r.unrec(f, "match on the accept result", where(b, abb), "not found")
@@ -433,6 +436,20 @@ def v7_argument_parsers(ctx):
                 for e in fb.succ[bb]:
                     if info["arms"].get(e.dst) == ["None"]:
                         none_e.add((e.src, e.dst))
+    if not none_e:
+        # `if self.frames.next().is_some() { return Err(..) }`
+        for bb in fb.live_blocks():
+            info = fb.switch_info(bb)
+            if info and info["kind"] == "bool":
+                o = peel_var(info["on"])
+                ng = False
+                while o[0] == "un" and o[1] == "Not":
+                    o, ng = peel_var(o[2]), not ng
+                if o[0] == "call" and o[1] and o[1].split("::")[-1] in ("is_some", "is_none") and o[2] and peel_var(o[2][0])[0] == "call" and peel_var(o[2][0])[3] == site:
+                    nothing = (o[1].split("::")[-1] == "is_none") != ng
+                    for e in fb.succ[bb]:
+                        if info["arms"].get(e.dst) == [nothing]:
+                            none_e.add((e.src, e.dst))
     if none_e:
         rs = [(c, ret_origin(fb, d)) for c, d, rb in ret_classes(fb, 0, lambda e: e.kind == "unwind" or (e.src, e.dst) in none_e)]
         good = bool(rs) and all(c == "err" or (c == "const" and const_int(o2) == 0) for c, o2 in rs)
